@@ -1,4 +1,6 @@
 import Spydr.IO.Props.C15
+import Spydr.IO.Props.C15Resolve
+import Spydr.IO.Props.C16
 #print axioms Spydr.IO.read_policy_restored
 #print axioms Spydr.IO.read_outcome
 #print axioms Spydr.IO.unrepaired_leaks
@@ -6,3 +8,19 @@ import Spydr.IO.Props.C15
 #print axioms Spydr.IO.trajectory_constant
 #print axioms Spydr.IO.fresh_process
 #print axioms Spydr.IO.parses_invisible
+#print axioms Spydr.IO.toposort_ok
+#print axioms Spydr.IO.toposort_fixpoint
+#print axioms Spydr.IO.toposort_idem
+#print axioms Spydr.IO.toposort_fuel_irrelevant
+#print axioms Spydr.IO.topoOrderB_iff
+#print axioms Spydr.IO.edifify_documented_only
+#print axioms Spydr.IO.edifify_idem
+#print axioms Spydr.IO.compose_repeatable
+#print axioms Spydr.IO.pure_writer_unchanged
+#print axioms Spydr.IO.docEqB_sound
+#print axioms Spydr.IO.resolved_declared
+#print axioms Spydr.IO.resolve_complete
+#print axioms Spydr.IO.dangling_rejected
+#print axioms Spydr.IO.toposort_finishes
+#print axioms Spydr.IO.toposort_total
+#print axioms Spydr.IO.edifify_finishes
